@@ -327,7 +327,8 @@ pub struct ReadSpec<'a> {
     pub v1_limit: Option<usize>,
     /// decryption options: bit 0 = enable_gnupg_aead, bit 1 = enable_legacy (SED);
     /// bit 2: a consumer that calls the reader again after an error (read, fill_buf, read_to_end);
-    /// bit 3: the SEIPDv1 read mode is set before the enable_* calls instead of after them
+    /// bit 3: the SEIPDv1 read mode is set before the enable_* calls instead of after them;
+    /// bit 4: the recipient refuses a message that is not encrypted
     pub opts: u8,
 }
 
@@ -354,6 +355,13 @@ pub fn read_message<R: BufRead + std::fmt::Debug + Send>(input: R, spec: &ReadSp
         }
     };
     out.armor_headers = headers;
+    // bit 4: the recipient expects an encrypted message and refuses anything else (what arrives after
+    // damage to the outermost packet header may parse as some other kind of message)
+    if spec.opts & 16 != 0 && !msg.is_encrypted() {
+        out.end = Err("not an encrypted message".into());
+        out.stage = "decrypt";
+        return out;
+    }
     let msg = if msg.is_encrypted() {
         let r = match &spec.opener {
             Opener::None => Ok(msg),
